@@ -17,6 +17,8 @@ import (
 	"sync/atomic"
 	"time"
 
+	"github.com/go-openapi/loads"
+
 	"verif/engine/apib"
 	"verif/engine/enum"
 	"verif/engine/report"
@@ -342,6 +344,90 @@ func explore(r *report.R, st *stats, s apib.Spec, level int, sampleIt bool) {
 	}
 }
 
+// historySweep: the sequences-on-one-API-value dimension (history.go). Runs first so that a budget cut never drops it.
+func historySweep(r *report.R, stop func() bool) {
+	descs := historyDescriptions(r.Thorough())
+	depthDeep, depthRest, deep := 3, 3, 0
+	if r.Thorough() {
+		depthDeep, depthRest, deep = 4, 3, 3
+	}
+	type item struct {
+		di, ii, first, depth int
+	}
+	var items []item
+	docs := make([]*loads.Document, len(descs))
+	alphas := make([][]Step, len(descs))
+	inits := make([][]Reg, len(descs))
+	for di, s := range descs {
+		docs[di] = apib.MustLoad(s)
+		alphas[di] = historyAlphabet(s)
+		inits[di] = historyInits(s)
+		for ii := range inits[di] {
+			d := depthRest
+			if ii < deep {
+				d = depthDeep
+			}
+			for f := range alphas[di] {
+				items = append(items, item{di, ii, f, d})
+			}
+		}
+	}
+	var sequences atomic.Int64
+	enum.Parallel(len(items), stop, func(k int) {
+		it := items[(k+int((r.Seed%int64(len(items))+int64(len(items)))%int64(len(items))))%len(items)]
+		s, doc, alpha, init := descs[it.di], docs[it.di], alphas[it.di], inits[it.di][it.ii]
+		st := &histStats{outcomes: map[string]int64{}}
+		var n, evals, nontrivial int64
+		run := func(seq []Step) {
+			before := st.validates + st.requests
+			cl, what := runHistory(doc, s, init, seq, alpha, r.Thorough(), st)
+			n++
+			e := st.validates + st.requests - before + 1 // + the fresh API of the differential
+			evals += e
+			if len(seq) > 0 {
+				nontrivial += e
+			}
+			c := Case{Spec: s, Reg: init, History: true, Seq: append([]Step(nil), seq...), Thorough: r.Thorough()}
+			if cl != "" {
+				r.Fail(cl, what, c)
+			} else if n%997 == 1 && r.WantSample() {
+				r.Sample(map[string]any{"case": c, "observed": "every Validate() as the reference says, final verdict equals a fresh API's"})
+			}
+		}
+		if it.first == 0 {
+			run(nil)
+		}
+		forEachSeq(len(alpha), it.depth-1, func(idx []int) {
+			seq := make([]Step, 0, len(idx)+1)
+			seq = append(seq, alpha[it.first])
+			for _, i := range idx {
+				seq = append(seq, alpha[i])
+			}
+			run(seq)
+		})
+		sequences.Add(n)
+		r.Eval(evals)
+		r.Nontrivial(nontrivial)
+		for k, v := range st.outcomes {
+			r.Outcome(k, v)
+		}
+	})
+	var nInits int
+	for _, in := range inits {
+		nInits += len(in)
+	}
+	r.Set("history", map[string]any{
+		"descriptions":            len(descs),
+		"initial_states":          nInits,
+		"alphabet":                fmt.Sprint(alphas[0]),
+		"alphabet_size":           len(alphas[0]),
+		"depth":                   depthRest,
+		"depth_first_states":      depthDeep,
+		"states_with_first_depth": deep,
+		"sequences_executed":      sequences.Load(),
+	})
+}
+
 type sweep struct {
 	name  string
 	specs []apib.Spec
@@ -431,6 +517,7 @@ func main() {
 		}
 		return false
 	}
+	historySweep(r, stop)
 	seenSpec := map[string]bool{}
 	for _, sw := range sweeps {
 		sw := sw
@@ -467,6 +554,7 @@ func main() {
 		"every security requirement names a declared definition (Swagger 2.0 validity); an operation never carries an explicit empty consumes/produces list",
 		"well-formed request = declared method and path, Content-Type drawn from the operation's consumes (body only on POST/PUT/PATCH with non-empty consumes), Accept absent, */* or drawn from its produces; authenticators accept every request",
 		"descriptions with an upper-case, parameterised or wildcard media type are checked for the validation clause only (the property text excludes them from the serving clause)",
+		"histories: the registrations present after a sequence of calls are what the API's own lookups (ConsumersFor, ProducersFor, OperationHandlerFor, AuthenticatorsFor) report for every name of the case's universe",
 	)
-	r.Finish("every description of the stated sweeps x every registration set of the stated level (exact, each single omission, each single addition, omit-all, swap, two additions, case variants of media types and methods, with and without the JSON defaults, products across categories) -> one Validate() on a fresh real untyped.API compared with the reference; for every set on which the real Validate() returns nil and whose description is lower-case/parameter-free/wildcard-free: every operation x every consumes entry x every produces entry (+ no Accept) through middleware.Serve. One evaluation = one Validate() or one served request. Non-trivial = a Validate() where some required or registered set is non-empty, or a request that got past routing (not 404/405). Cases are distinct by construction: descriptions are de-duplicated across sweeps and registration sets are de-duplicated per description.", !cut.Load())
+	r.Finish("HISTORIES: every stated history description x every stated initial registration state x every sequence of calls of length 0..depth over {Validate, WithJSONDefaults, WithoutJSONDefaults, RegisterConsumer x2 types, RegisterProducer x2 types, RegisterOperation declared/undeclared, RegisterAuth declared/undeclared} executed on ONE untyped.API value; every Validate() of the sequence and a final one are compared with the reference for the registrations present at that moment (read off the API through its public lookups), the final verdict is compared with a fresh API carrying the same registrations, and after a passing final Validate() every well-formed request is served. FRESH INSTANCES: every description of the stated sweeps x every registration set of the stated level (exact, each single omission, each single addition, omit-all, swap, two additions, case variants of media types and methods, with and without the JSON defaults, products across categories) -> one Validate() on a fresh real untyped.API compared with the reference; for every set on which the real Validate() returns nil and whose description is lower-case/parameter-free/wildcard-free: every operation x every consumes entry x every produces entry (+ no Accept) through middleware.Serve. One evaluation = one Validate() or one served request. Non-trivial = a Validate() where some required or registered set is non-empty, or a request that got past routing (not 404/405). Cases are distinct by construction: descriptions are de-duplicated across sweeps and registration sets are de-duplicated per description.", !cut.Load())
 }
